@@ -194,12 +194,12 @@ def run(chk):
             if schemas.valid_doc(d) is not None:
                 docs.append(d)
     chk.rule = ("4 base schemas (nesting depth 3, multisections, abstract slots, wrapping section datatypes, a case-sensitive key type) x %d random "
-                "placements of handler attributes on subsets of all items and the schema x %d random texts, 30%% of them with 1..2 command-line overrides (conforming "
+                "placements of handler attributes on subsets of all items and the schema x %d random texts, 30%% of them with 1..2 command-line overrides, a quarter of the others cut into 1..3 included resources (conforming "
                 "generator; rejected ones count as trivial) x handler maps {complete (with upper-cased names), each name "
                 "missing, each name mapped to None, each name duplicated in another case, each name supplied only in two non-normalised spellings}; non-trivial = accepted text with "
                 "at least one handler entry" % (nvar, ntext))
     sc = scenario.Scenarios(docs)
-    from . import c14
+    from . import c06, c14
     for sid in range(len(docs)):
         for t in range(ntext):
             text = textgen.Gen(rng, sc.recs[sid]).text()
@@ -207,13 +207,20 @@ def run(chk):
             if rng.random() < 0.3:
                 # the same entries must be delivered when option bags travel with the sections
                 opts = [o for o in c14.gen_overrides(rng, sc.recs[sid], text, rng.randint(1, 2)) if c14.parse(o)]
-            sc.add(sid, {"d/main.conf": text}, opts=opts)
+            files, resolve = {"d/main.conf": text}, {}
+            if not opts and rng.random() < 0.25:
+                # the same entries, in the same order, when parts of the text (whole sections, runs of keys) live in
+                # included resources: sections are "closed in the text" wherever their closing line happens to be read
+                c = c06.cut(rng, files, rng.choice([1, 2, 3]))
+                if c is not None:
+                    files, _, resolve = c
+            sc.add(sid, files, opts=opts, meta={"resolve": resolve})
     outs = sc.run_spec(chk, invariants=["HandlerOrderIsPostOrder", "TreeIsValueTree2"])
     for it, o in zip(sc.items, outs):
         it["meta"]["nontrivial"] = o["o"]["r"] == "ok" and len(o["o"]["hl"]) > 0
     scenario.replay_all(chk, sc, outs, compare)
     k = next(i for i, o in enumerate(outs) if o["o"]["r"] == "ok" and len(o["o"]["hl"]) > 2)
-    chk.sample({"text": sc.items[k]["files"]["d/main.conf"], "handler_names": [h for h, _ in outs[k]["o"]["hl"]]})
+    chk.sample({"text": [str(l) for l in sc.items[k]["files"]["d/main.conf"]], "handler_names": [h for h, _ in outs[k]["o"]["hl"]]})
     chk.note("schemas", len(docs))
     chk.note("scenarios", len(sc.items))
     chk.exhaustive = False
